@@ -89,8 +89,9 @@ WHAT = {
 
 def run(ctx):
     ctx.cov["rule"] = ("cases = requests (listing, lookups by name/type, New(names), New1..9, FMap1..9, compiler offsets) on generated struct shapes; "
-                       "non-trivial = the request line on a shape with >= 2 listed fields; distinct by (shape s-expression, request)")
-    ctx.assumptions += ["gc/amd64 struct layout and reflect's field description are modelled (Model/Layout), validated against unsafe.Sizeof/Alignof/Offsetof on every generated shape",
+                       "non-trivial = the request line on a shape with >= 2 listed fields; distinct by (shape s-expression, request)" + S.TWIN_RULE +
+                       "; on such a container additionally: lookups by the names, keys and types of the OTHER members of its group")
+    ctx.assumptions += [S.TWIN_ASSUMPTION, "gc/amd64 struct layout and reflect's field description are modelled (Model/Layout), validated against unsafe.Sizeof/Alignof/Offsetof on every generated shape",
                         "type identity (String()== && AssignableTo) is equality of GoType descriptions whose defined types carry import path + name; a fraction of the shapes lists distinct types that reflect prints identically (same-named types of harness/pa/v1, pb/v1, pc/v1 and composites of them; no interface/channel kinds, where AssignableTo is wider than identity) - see distribution.colliding_types"]
     S.apply_replay(ctx)
     S.regenerate(ctx)
@@ -111,6 +112,8 @@ def run(ctx):
             k = meta["kind"]
             ctx.count(S.sexpr(sh.type) + "|" + req, nontrivial=len(sh.listing) >= 2)
             ctx.hist("request", k)
+            if sh.twins and k not in ("shape", "offs"):
+                ctx.hist("same_printing_container_request", "%s%s, %s" % (k, " by a name/type of the other container" if "twin" in meta else "", "container unfolded first" if sh.twin_pos == 0 else "after a same-printing container"))
             if k == "shape":
                 truth, size = {}, int(res.split()[0])
                 S.shape_hist(ctx, sh)
